@@ -1,5 +1,6 @@
 import HapVerif.Model.Convert
 import HapVerif.Gen.Misc
+import HapVerif.Proofs.BleMeta
 import Mathlib.Data.Rat.Floor
 import Mathlib.Tactic.Linarith
 import Mathlib.Tactic.Ring
@@ -408,5 +409,163 @@ theorem C14_gen_tie :
     Gen.Misc.integerTypes = ["uint64", "uint32", "uint16", "uint8", "int"] ∧
     Gen.Misc.convertFinals = ["int(val.to_integral_value())", "float(val)"] :=
   ⟨fun _ => rfl, fun _ => rfl, by decide, by decide, by decide, by decide⟩
+
+/-! ## The BLE signature route: how the declared range and step reach the characteristic model -/
+
+section BleRoute
+open HapVerif HapVerif.BleMeta HapVerif.BleMetaP
+
+/-- **The declared range reaches the model exactly, over the BLE signature route** (`min_max_value`): for every integer
+    presentation format and every pair of bounds the format can express - negative minima of `int` down to -2^31
+    included - the valid-range descriptor a conformant accessory writes (both bounds little-endian in the
+    characteristic's format, two's complement) is read back as exactly those bounds. -/
+theorem C14_ble_range_roundtrip (code : Nat) (f : IntFmt) (hf : intFmt code = some f) (lo hi : Int)
+    (hlo : inRange f lo) (hhi : inRange f hi) :
+    minMax code (encodeInt f lo ++ encodeInt f hi) = .ints lo hi := by
+  have hw := intFmt_width_pos code f hf
+  have hl : (encodeInt f lo ++ encodeInt f hi).length = 2 * f.width := by
+    rw [List.length_append, encodeInt_length, encodeInt_length]; omega
+  have hne : (encodeInt f lo ++ encodeInt f hi).isEmpty = false := by
+    cases h : (encodeInt f lo ++ encodeInt f hi) with
+    | nil => rw [h] at hl; simp at hl; omega
+    | cons _ _ => rfl
+  unfold minMax
+  rw [hne]
+  simp only [Bool.false_eq_true, ↓reduceIte, hf, hl]
+  have ht : (encodeInt f lo ++ encodeInt f hi).take f.width = encodeInt f lo := by
+    rw [List.take_append_of_le_length (by rw [encodeInt_length]), List.take_of_length_le (by rw [encodeInt_length])]
+  have hd : (encodeInt f lo ++ encodeInt f hi).drop f.width = encodeInt f hi := by
+    rw [List.drop_append_of_le_length (by rw [encodeInt_length]), List.drop_of_length_le (by rw [encodeInt_length]), List.nil_append]
+  rw [ht, hd]
+  obtain ⟨w, s⟩ := f
+  rw [ble_decode_encode w hw s lo hlo, ble_decode_encode w hw s hi hhi]
+
+/-- the same for the step descriptor (`min_step`) -/
+theorem C14_ble_step_roundtrip (code : Nat) (f : IntFmt) (hf : intFmt code = some f) (st : Int) (hst : inRange f st) :
+    minStep code (encodeInt f st) = .int st := by
+  have hw := intFmt_width_pos code f hf
+  have hne : (encodeInt f st).isEmpty = false := by
+    cases h : encodeInt f st with
+    | nil => have := encodeInt_length f st; rw [h] at this; simp at this; omega
+    | cons _ _ => rfl
+  unfold minStep
+  rw [hne]
+  simp only [Bool.false_eq_true, ↓reduceIte, hf, encodeInt_length]
+  obtain ⟨w, s⟩ := f
+  rw [ble_decode_encode w hw s st hst]
+
+/-- non-vacuity, and the point a signed/unsigned mix-up gets wrong: a tilt range of -90..90 on an `int` characteristic -/
+example : minMax 0x10 (encodeInt ⟨4, true⟩ (-90) ++ encodeInt ⟨4, true⟩ 90) = .ints (-90) 90 :=
+  C14_ble_range_roundtrip 0x10 ⟨4, true⟩ rfl (-90) 90 (by unfold inRange; norm_num) (by unfold inRange; norm_num)
+example : encodeInt ⟨4, true⟩ (-90) = [0xA6, 0xFF, 0xFF, 0xFF] := by decide
+
+/-- **`min_max_value` and `min_step` of the model are the source's if-chains** (`C14_ble_gen_tie`): the rows the translator
+    lifts out of `Characteristic.min_max_value` / `_unpack_value` on every run (format code, `struct` format string),
+    interpreted with Python's `struct` semantics, give the model's result for EVERY format code and EVERY descriptor. -/
+theorem C14_ble_gen_tie (code : Nat) (b : Bytes) :
+    BleMetaGen.rangeByTable Gen.BleMeta.rangeRows code b = minMax code b ∧
+    BleMetaGen.stepByTable Gen.BleMeta.unpackRows code b = minStep code b := by
+  unfold BleMetaGen.rangeByTable BleMetaGen.stepByTable minMax minStep
+  by_cases he : b.isEmpty = true
+  · simp only [he, ↓reduceIte, and_self]
+  simp only [he, Bool.false_eq_true, ↓reduceIte]
+  by_cases h4 : code = 4
+  · subst h4
+    have l1 : BleMetaGen.lookup Gen.BleMeta.rangeRows 4 = some ("<BB", "tuple") := by decide
+    have l2 : BleMetaGen.lookup Gen.BleMeta.unpackRows 4 = some ("<B", "first") := by decide
+    have i1 : BleMetaGen.items "<BB" = some [.int ⟨1, false⟩, .int ⟨1, false⟩] := by decide
+    have i2 : BleMetaGen.items "<B" = some [.int ⟨1, false⟩] := by decide
+    have f : intFmt 4 = some ⟨1, false⟩ := by decide
+    have c : (decide (("<B" : String) = "") || ("first" : String) != "first") = false := by decide
+    simp only [l1, l2, i1, i2, f, c, unpack_pair_int, unpack_one_int, Bool.false_eq_true, ↓reduceIte]
+    constructor <;> split_ifs <;> rfl
+  by_cases h6 : code = 6
+  · subst h6
+    have l1 : BleMetaGen.lookup Gen.BleMeta.rangeRows 6 = some ("<HH", "tuple") := by decide
+    have l2 : BleMetaGen.lookup Gen.BleMeta.unpackRows 6 = some ("<H", "first") := by decide
+    have i1 : BleMetaGen.items "<HH" = some [.int ⟨2, false⟩, .int ⟨2, false⟩] := by decide
+    have i2 : BleMetaGen.items "<H" = some [.int ⟨2, false⟩] := by decide
+    have f : intFmt 6 = some ⟨2, false⟩ := by decide
+    have c : (decide (("<H" : String) = "") || ("first" : String) != "first") = false := by decide
+    simp only [l1, l2, i1, i2, f, c, unpack_pair_int, unpack_one_int, Bool.false_eq_true, ↓reduceIte]
+    constructor <;> split_ifs <;> rfl
+  by_cases h8 : code = 8
+  · subst h8
+    have l1 : BleMetaGen.lookup Gen.BleMeta.rangeRows 8 = some ("<LL", "tuple") := by decide
+    have l2 : BleMetaGen.lookup Gen.BleMeta.unpackRows 8 = some ("<L", "first") := by decide
+    have i1 : BleMetaGen.items "<LL" = some [.int ⟨4, false⟩, .int ⟨4, false⟩] := by decide
+    have i2 : BleMetaGen.items "<L" = some [.int ⟨4, false⟩] := by decide
+    have f : intFmt 8 = some ⟨4, false⟩ := by decide
+    have c : (decide (("<L" : String) = "") || ("first" : String) != "first") = false := by decide
+    simp only [l1, l2, i1, i2, f, c, unpack_pair_int, unpack_one_int, Bool.false_eq_true, ↓reduceIte]
+    constructor <;> split_ifs <;> rfl
+  by_cases h10 : code = 10
+  · subst h10
+    have l1 : BleMetaGen.lookup Gen.BleMeta.rangeRows 10 = some ("<QQ", "tuple") := by decide
+    have l2 : BleMetaGen.lookup Gen.BleMeta.unpackRows 10 = some ("<Q", "first") := by decide
+    have i1 : BleMetaGen.items "<QQ" = some [.int ⟨8, false⟩, .int ⟨8, false⟩] := by decide
+    have i2 : BleMetaGen.items "<Q" = some [.int ⟨8, false⟩] := by decide
+    have f : intFmt 10 = some ⟨8, false⟩ := by decide
+    have c : (decide (("<Q" : String) = "") || ("first" : String) != "first") = false := by decide
+    simp only [l1, l2, i1, i2, f, c, unpack_pair_int, unpack_one_int, Bool.false_eq_true, ↓reduceIte]
+    constructor <;> split_ifs <;> rfl
+  by_cases h16 : code = 16
+  · subst h16
+    have l1 : BleMetaGen.lookup Gen.BleMeta.rangeRows 16 = some ("<ll", "tuple") := by decide
+    have l2 : BleMetaGen.lookup Gen.BleMeta.unpackRows 16 = some ("<l", "first") := by decide
+    have i1 : BleMetaGen.items "<ll" = some [.int ⟨4, true⟩, .int ⟨4, true⟩] := by decide
+    have i2 : BleMetaGen.items "<l" = some [.int ⟨4, true⟩] := by decide
+    have f : intFmt 16 = some ⟨4, true⟩ := by decide
+    have c : (decide (("<l" : String) = "") || ("first" : String) != "first") = false := by decide
+    simp only [l1, l2, i1, i2, f, c, unpack_pair_int, unpack_one_int, Bool.false_eq_true, ↓reduceIte]
+    constructor <;> split_ifs <;> rfl
+  by_cases h20 : code = 20
+  · subst h20
+    have l1 : BleMetaGen.lookup Gen.BleMeta.rangeRows 20 = some ("<ff", "tuple") := by decide
+    have l2 : BleMetaGen.lookup Gen.BleMeta.unpackRows 20 = some ("<f", "first") := by decide
+    have i1 : BleMetaGen.items "<ff" = some [.f32, .f32] := by decide
+    have i2 : BleMetaGen.items "<f" = some [.f32] := by decide
+    have f : intFmt 20 = none := by decide
+    have c : (decide (("<f" : String) = "") || ("first" : String) != "first") = false := by decide
+    simp only [l1, l2, i1, i2, f, c, floatCode, unpack_pair_f32, unpack_one_f32, Bool.false_eq_true, ↓reduceIte]
+    constructor <;> split_ifs <;> rfl
+  -- every other code: no range row; the value rows that exist (bool, text, opaque) are not numeric
+  have e4 : (4 == code) = false := by simpa using Ne.symm h4
+  have e6 : (6 == code) = false := by simpa using Ne.symm h6
+  have e8 : (8 == code) = false := by simpa using Ne.symm h8
+  have e10 : (10 == code) = false := by simpa using Ne.symm h10
+  have e16 : (16 == code) = false := by simpa using Ne.symm h16
+  have e20 : (20 == code) = false := by simpa using Ne.symm h20
+  have f : intFmt code = none := by
+    unfold intFmt
+    simp only [h4, h6, h8, h10, h16, ↓reduceIte]
+  have nf : ¬ code = floatCode := h20
+  have l1 : BleMetaGen.lookup Gen.BleMeta.rangeRows code = none := by
+    simp only [BleMetaGen.lookup, Gen.BleMeta.rangeRows, List.find?, e4, e6, e8, e10, e16, e20]
+  constructor
+  · simp only [l1, f, nf, ↓reduceIte]
+  · simp only [f, nf, ↓reduceIte]
+    by_cases h1 : code = 1
+    · subst h1
+      have l2 : BleMetaGen.lookup Gen.BleMeta.unpackRows 1 = some ("<B", "bool") := by decide
+      have c : (decide (("<B" : String) = "") || ("bool" : String) != "first") = true := by decide
+      simp only [l2, c, ↓reduceIte]
+    by_cases h25 : code = 25
+    · subst h25
+      have l2 : BleMetaGen.lookup Gen.BleMeta.unpackRows 25 = some ("", "return bytes.decode(value)") := by decide
+      simp only [l2, decide_true, Bool.true_or, ↓reduceIte]
+    by_cases h27 : code = 27
+    · subst h27
+      have l2 : BleMetaGen.lookup Gen.BleMeta.unpackRows 27 = some ("", "return value.hex()") := by decide
+      simp only [l2, decide_true, Bool.true_or, ↓reduceIte]
+    have e1 : (1 == code) = false := by simpa using Ne.symm h1
+    have e25 : (25 == code) = false := by simpa using Ne.symm h25
+    have e27 : (27 == code) = false := by simpa using Ne.symm h27
+    have l2 : BleMetaGen.lookup Gen.BleMeta.unpackRows code = none := by
+      simp only [BleMetaGen.lookup, Gen.BleMeta.unpackRows, List.find?, e1, e4, e6, e8, e10, e16, e20, e25, e27]
+    simp only [l2]
+
+
+end BleRoute
 
 end HapVerif.C14
